@@ -9,6 +9,7 @@ cp /repo/Cargo.lock replay/common/Cargo.lock
 (cd replay/common && cargo build --offline -q --target-dir ../../.cache/replay-target && cargo build --offline -q --release --target-dir ../../.cache/replay-target)
 (cd replay/pool && cp /repo/Cargo.lock . && cargo build --offline -q --target-dir ../../.cache/replay-target && cargo build --offline -q --release --target-dir ../../.cache/replay-target)
 (cd replay/lottery && cp /repo/Cargo.lock . && cargo build --offline -q --release --target-dir ../../.cache/replay-target)
+(cd replay/stm && cp /repo/Cargo.lock . && cargo build --offline -q --target-dir ../../.cache/replay-target)
 # warm the MIR target dir (dependencies) so that per-check dumps only recompile the crate itself
 python3-vt - <<'PY'
 import sys
